@@ -434,7 +434,14 @@ async fn run_case(dir: &std::path::Path, case: &Value) -> Vec<Value> {
                     }
                     "touch" => {
                         let f = std::fs::OpenOptions::new().write(true).open(&p).unwrap();
-                        f.set_modified(systime(s[1].as_i64().unwrap(), s[2].as_u64().unwrap() as u32)).unwrap();
+                        // (a file system that cannot store this time: the step is skipped)
+                        if f.set_modified(systime(s[1].as_i64().unwrap(), s[2].as_u64().unwrap() as u32)).is_err() {
+                            continue;
+                        }
+                        let back = std::fs::metadata(&p).ok().and_then(|m| m.modified().ok()).map(secs_ns);
+                        if back != Some((s[1].as_i64().unwrap(), s[2].as_u64().unwrap() as u32)) {
+                            continue;
+                        }
                     }
                     "rewrite" => {
                         // same length, same mtime, same inode: content change only (version unchanged)
